@@ -34,7 +34,8 @@ const (
 	avNil
 	avBool
 	avList
-	avIdx // a reference to (an element of) an index map held in a module struct field
+	avIdx  // a reference to (an element of) an index map held in a module struct field
+	avFunc // a function literal with the frame it was written in (accessors kept in tables)
 )
 
 type pstep struct {
@@ -62,11 +63,13 @@ type aval struct {
 	fields  map[string]*aval
 	b       bool
 	desc    string
-	strOf   bool       // result of .String() on a doc value
-	elems   []*aval    // avList elements
-	ekeys   []*aval    // avList keys (map literals)
-	idxFld  *types.Var // avIdx: the index field
-	idxKeys []*aval    // avIdx: keys applied so far
+	strOf   bool         // result of .String() on a doc value
+	elems   []*aval      // avList elements
+	ekeys   []*aval      // avList keys (map literals)
+	idxFld  *types.Var   // avIdx: the index field
+	idxKeys []*aval      // avIdx: keys applied so far
+	lit     *ast.FuncLit // avFunc
+	litFr   *frame       // avFunc: the frame the literal closes over
 }
 
 func unknown(desc string) *aval { return &aval{k: avUnknown, desc: desc} }
@@ -125,6 +128,7 @@ type interp struct {
 	steps  int
 
 	lastRHS ast.Expr // the source expression of the value being stored (store)
+	pkgVars map[*types.Var]*aval
 }
 
 // taglessLookup: fields of go-openapi/spec structs that carry no json tag but
@@ -286,6 +290,15 @@ func (in *interp) call(fi *core.FuncInfo, recv *aval, args []*aval) *aval {
 	info := fi.Pkg.TypesInfo
 	if fi.Decl.Recv != nil && len(fi.Decl.Recv.List) == 1 && len(fi.Decl.Recv.List[0].Names) == 1 {
 		if o := info.Defs[fi.Decl.Recv.List[0].Names[0]]; o != nil && recv != nil {
+			// a value receiver is a copy: stores into its members stay in the callee
+			if _, isPtr := o.Type().Underlying().(*types.Pointer); !isPtr && recv.k == avStruct {
+				cp := *recv
+				cp.fields = map[string]*aval{}
+				for k, v := range recv.fields {
+					cp.fields[k] = v
+				}
+				recv = &cp
+			}
 			fr.env[o] = recv
 		}
 	}
@@ -1007,6 +1020,12 @@ func (in *interp) eval(fr *frame, e ast.Expr) *aval {
 		if v, ok := fr.env[o]; ok && v != nil {
 			return v
 		}
+		// a package-level table (a variable with an initialiser, never assigned in the module's functions)
+		if pv, isVar := o.(*types.Var); isVar && pv.Pkg() != nil && pv.Parent() == pv.Pkg().Scope() {
+			if v := in.pkgVar(fr, pv); v != nil {
+				return v
+			}
+		}
 		return unknown("ident " + x.Name)
 	case *ast.StarExpr:
 		return in.eval(fr, x.X)
@@ -1156,7 +1175,7 @@ func (in *interp) eval(fr *frame, e ast.Expr) *aval {
 	case *ast.CallExpr:
 		return in.evalCall(fr, x)
 	case *ast.FuncLit:
-		return unknown("closure")
+		return &aval{k: avFunc, lit: x, litFr: fr}
 	case *ast.TypeAssertExpr:
 		return in.eval(fr, x.X)
 	}
@@ -1249,6 +1268,10 @@ func (in *interp) evalCall(fr *frame, call *ast.CallExpr) *aval {
 		callee = fns[0]
 	}
 	if callee == nil {
+		// an accessor kept in a table: keyword.get(schema)
+		if fv := in.eval(fr, call.Fun); fv != nil && fv.k == avFunc {
+			return in.callLit(fv, args)
+		}
 		return unknown("dynamic call")
 	}
 	if cf := in.c.P.Funcs[callee]; cf != nil {
@@ -1459,4 +1482,110 @@ func modelPositions(p *core.Program) []modelPos {
 	walk(swN, "", 0, false)
 	sort.Slice(out, func(i, j int) bool { return out[i].shape < out[j].shape })
 	return out
+}
+
+// pkgVar evaluates the initialiser of a package-level variable (a table of records, possibly holding accessors).
+// Variables assigned anywhere in the module are not followed.
+func (in *interp) pkgVar(fr *frame, pv *types.Var) *aval {
+	if in.pkgVars == nil {
+		in.pkgVars = map[*types.Var]*aval{}
+	}
+	if v, ok := in.pkgVars[pv]; ok {
+		return v
+	}
+	in.pkgVars[pv] = nil
+	info := fr.fi.Pkg.TypesInfo
+	if pv.Pkg() != fr.fi.Pkg.Types {
+		return nil
+	}
+	var init ast.Expr
+	for _, f := range fr.fi.Pkg.Syntax {
+		for _, d := range f.Decls {
+			gd, ok := d.(*ast.GenDecl)
+			if !ok || gd.Tok != token.VAR {
+				continue
+			}
+			for _, sp := range gd.Specs {
+				vs, ok := sp.(*ast.ValueSpec)
+				if !ok || len(vs.Values) != len(vs.Names) {
+					continue
+				}
+				for i, nm := range vs.Names {
+					if info.Defs[nm] == types.Object(pv) {
+						init = vs.Values[i]
+					}
+				}
+			}
+		}
+	}
+	if init == nil {
+		return nil
+	}
+	// not assigned elsewhere
+	for _, g := range in.c.P.SortedFuncs() {
+		if g.Pkg != fr.fi.Pkg || g.Decl.Body == nil {
+			continue
+		}
+		assigned := false
+		ast.Inspect(g.Decl.Body, func(n ast.Node) bool {
+			if as, ok := n.(*ast.AssignStmt); ok {
+				for _, l := range as.Lhs {
+					if id := rootIdent(l); id != nil && info.Uses[id] == types.Object(pv) {
+						assigned = true
+					}
+				}
+			}
+			return true
+		})
+		if assigned {
+			return nil
+		}
+	}
+	v := in.eval(&frame{fi: fr.fi, env: map[types.Object]*aval{}}, init)
+	in.pkgVars[pv] = v
+	return v
+}
+
+// callLit interprets a function literal on the given arguments, in the frame it closes over.
+func (in *interp) callLit(fv *aval, args []*aval) *aval {
+	if len(in.stack) > 14 {
+		return unknown("recursion bound")
+	}
+	in.steps++
+	if in.steps > 200000 {
+		return unknown("step bound")
+	}
+	fr := &frame{fi: fv.litFr.fi, env: map[types.Object]*aval{}}
+	for k, v := range fv.litFr.env {
+		fr.env[k] = v
+	}
+	info := fr.fi.Pkg.TypesInfo
+	i := 0
+	for _, f := range fv.lit.Type.Params.List {
+		for _, nm := range f.Names {
+			if o := info.Defs[nm]; o != nil && i < len(args) {
+				fr.env[o] = args[i]
+			}
+			i++
+		}
+		if len(f.Names) == 0 {
+			i++
+		}
+	}
+	nf := len(in.facts)
+	in.block(fr, fv.lit.Body.List)
+	in.facts = in.facts[:nf]
+	var best *aval
+	for _, r := range fr.rets {
+		if r == nil {
+			continue
+		}
+		if best == nil || (best.k == avNil || best.k == avUnknown) && r.k != avNil && r.k != avUnknown {
+			best = r
+		}
+	}
+	if best == nil {
+		return unknown("no return")
+	}
+	return best
 }
